@@ -62,6 +62,17 @@ THEOREMS = [
     "Verif.C02.no_data_zero_current",
     "Verif.C02.kymo_image_shape",
     "Verif.C02.kymo_no_data_same_shape",
+    # deepening round D
+    "Verif.C02.pixel_sum_total",
+    "Verif.C02.channelPixels_spec",
+    "Verif.C02.kymo_get_image_any",
+    "Verif.C02.scan_get_image_any",
+    "Verif.C02.kymo_image_total",
+    "Verif.C02.scan_image_total",
+    "Verif.C02.expected_total_kymo",
+    "Verif.C02.answers_history_independent",
+    "Verif.C02.first_query_is_get_image",
+    "Verif.C02.query_colour_idempotent",
 ]
 RULE = (
     "corpus (documented interleaved-discard wave, non-constant samples per pixel, truncated colours) + exhaustive small "
@@ -227,6 +238,11 @@ def show_shape(shape):
     return "[" + ",".join(str(int(v)) for v in shape) + "]"
 
 
+def seq_has_late(e):
+    """does some colour's photon stream start inside the item (the object will repair its start)?"""
+    return any(shared_span(e, c) == "late" for c in COLORS)
+
+
 def impl_seq(case):
     """the answers of a sequence of queries on ONE object, joined by ';'"""
     e = explicit(case)
@@ -235,7 +251,7 @@ def impl_seq(case):
         try:
             obj = bc.object_from_case(e)
         except Exception as ex:
-            return [errname(ex)]
+            return [errname(ex)] * (1 if seq_has_late(e) else 2)
         for q in case["queries"]:
             try:
                 if q < 3:
@@ -246,7 +262,23 @@ def impl_seq(case):
                     out.append(show_shape(obj.shape))
             except Exception as ex:
                 out.append(errname(ex))
-    return [";".join(out)]
+        res = [";".join(out)]
+        if not seq_has_late(e):
+            # the same queries, each asked to a NEW object (history independence; model side: c02.kymopure/scanpure)
+            fresh = []
+            for q in case["queries"]:
+                try:
+                    obj = bc.object_from_case(e)
+                    if q < 3:
+                        fresh.append(show_img(obj.get_image(COLORS[q])))
+                    elif q == 3:
+                        fresh.append(show_img(obj.get_image("rgb")))
+                    else:
+                        fresh.append(show_shape(obj.shape))
+                except Exception as ex:
+                    fresh.append(errname(ex))
+            res.append(";".join(fresh))
+    return res
 
 
 # ------------------------------------------------------------------ impl
@@ -259,6 +291,16 @@ def show_img(img):
     if not np.array_equal(ints.astype(a.dtype), flat):
         return "non-integer-image"
     return "[" + ",".join(str(int(s)) for s in a.shape) + "] [" + ",".join(map(str, ints.tolist())) + "]"
+
+
+def show_total(img):
+    """total of an image as an exact integer (object arithmetic: no float rounding of the sum)"""
+    a = np.asarray(img)
+    flat = a.ravel()
+    ints = flat.astype(np.int64)
+    if not np.array_equal(ints.astype(a.dtype), flat):
+        return "non-integer-image"
+    return str(sum(int(v) for v in ints))
 
 
 def window_parts(case):
@@ -370,12 +412,16 @@ def impl(case):
         try:
             obj = bc.object_from_case(e)
         except Exception as ex:
-            return [errname(ex)] * 4
+            return [errname(ex)] * 7
+        totals = []
         for color in COLORS:
             try:
-                out.append(show_img(obj.get_image(color)))
+                img = obj.get_image(color)
+                out.append(show_img(img))
+                totals.append(show_total(img))
             except Exception as ex:
                 out.append(errname(ex))
+                totals.append(errname(ex))
         # metadata queries on a fresh object (nothing cached yet)
         try:
             obj = bc.object_from_case(e)
@@ -391,7 +437,7 @@ def impl(case):
                 )
         except Exception as ex:
             out.append(errname(ex))
-    return out
+    return out + totals  # 3 images, metadata, 3 image totals (c02.total)
 
 
 # ------------------------------------------------------------------ ops
@@ -414,7 +460,10 @@ def ops(case):
     if case["op"] == "seq":
         chans = " ".join(f"{int(lead.get(c, 0))} {enc_chan(e['channels'].get(c))}" for c in COLORS)
         head = f"c02.kymoseq {e['P']}" if e["kind"] == "kymo" else f"c02.scanseq {e['fast']} {e['P']} {e['slow']} {e['L']}"
-        return [f"{head} {iw} {chans} {enc_list(case['queries'])}"]
+        lines = [f"{head} {iw} {chans} {enc_list(case['queries'])}"]
+        if not seq_has_late(e):
+            lines.append(lines[0].replace("seq ", "pure ", 1))
+        return lines
     if e["kind"] == "kymo":
         for c in COLORS:
             out.append(f"c02.kymo {e['P']} {iw} {int(lead.get(c, 0))} {enc_chan(e['channels'].get(c))}")
@@ -424,6 +473,9 @@ def ops(case):
         for c in COLORS:
             out.append(f"c02.scan {ax} {iw} {int(lead.get(c, 0))} {enc_chan(e['channels'].get(c))}")
         out.append(f"c02.scanmeta {ax} {int(e.get('scan_count', 0))} {iw}")
+    kd = "k" if e["kind"] == "kymo" else "s"
+    for c in COLORS:
+        out.append(f"c02.total {kd} {iw} {int(lead.get(c, 0))} {enc_chan(e['channels'].get(c))}")
     return out
 
 
@@ -549,6 +601,11 @@ def oracle_seq(case, ia):
         return None  # the object could not even be made: compared with the model only
     spans = {c: shared_span(e, c) for c in COLORS}
     late = [c for c in COLORS if spans[c] == "late"]
+    if not late and len(ia) > 1 and ia[1] != ia[0]:
+        fresh = ia[1].split(";")
+        i = next((j for j, (a, b) in enumerate(zip(ans, fresh)) if a != b), 0)
+        return (f"history: query #{i} of the sequence {Q} on one object answered {ans[i][:160]}, a NEW object asked the "
+                f"same question first answers {fresh[i][:160] if i < len(fresh) else '?'} (the image of a colour cannot depend on what was asked before)")
     if e["kind"] == "scan" or not late:
         exp = {}
         for c in COLORS:
@@ -1088,7 +1145,10 @@ def extra_coverage(results):
     pix_hist = {"0": 0, "1-9": 0, "10-99": 0, "100-999": 0, "1000+": 0}
     k_nonconst = dead_per_line = intra = trunc = flip = explicit_frames = partial_last = lead_in = 0
     max_samples = max_pixels = 0
-    seq_n = seq_queries = seq_repaired = seq_hits = 0
+    seq_n = seq_queries = seq_repaired = seq_hits = seq_fresh = 0
+    totals_ok = totals_err = 0
+    branches = {"no-data:zeros": 0, "no-data:no-boundary": 0, "shared-span:walk": 0, "shared-span:no-boundary": 0,
+                "starts-inside-scan": 0, "size-mismatch/other": 0}
     for r in results:
         c = r["case"]
         kinds[c["op"] + "/" + c.get("stream", "?")] = kinds.get(c["op"] + "/" + c.get("stream", "?"), 0) + 1
@@ -1104,6 +1164,7 @@ def extra_coverage(results):
             imgs = {a.split(" ")[0] for q, a in zip(c["queries"], ans) if q < 3 and " " in a}
             seq_repaired += 1 if len(imgs) > 1 else 0
             seq_hits += sum(max(0, sum(1 for q, a in zip(c["queries"], ans) if q == col and " " in a) - 1) for col in range(3))
+            seq_fresh += 1 if len(r["impl"]) > 1 else 0
         if c["op"] == "sum":
             n = bc.count_pixels(c["iw"])
         else:
@@ -1135,6 +1196,23 @@ def extra_coverage(results):
                     ln = len(d) - m
                     key = ("early+" if m > 0 else "") + ("short" if ln < len(e["iw"]) else "long" if ln > len(e["iw"]) else "full")
                 modes_seen[key] = modes_seen.get(key, 0) + 1
+            if c["op"] in ("kymo", "scan") and len(r["impl"]) == 7:
+                # which branch of channelPixels_spec / colourPixelsSpec each colour took, and the totals compared
+                for ci, col in enumerate(COLORS):
+                    a, tot = r["impl"][ci], r["impl"][4 + ci]
+                    sp = shared_span(e, col)
+                    if tot.endswith("Error") or tot == "non-integer-image":
+                        totals_err += 1
+                    else:
+                        totals_ok += 1
+                    if sp == "late":
+                        branches["starts-inside-scan"] += 1
+                    elif a.startswith("["):
+                        branches["no-data:zeros" if sp is None else "shared-span:walk"] += 1
+                    elif a == "IndexError":
+                        branches["no-data:no-boundary" if sp is None else "shared-span:no-boundary"] += 1
+                    else:
+                        branches["size-mismatch/other"] += 1
         max_pixels = max(max_pixels, n)
         b = "0" if n == 0 else "1-9" if n < 10 else "10-99" if n < 100 else "100-999" if n < 1000 else "1000+"
         pix_hist[b] += 1
@@ -1157,6 +1235,10 @@ def extra_coverage(results):
         "sequence_queries": seq_queries,
         "sequence_repeated_colour_answers": seq_hits,
         "sequences_where_a_colour_changed_shape": seq_repaired,
+        "sequences_replayed_query_by_query_on_new_objects": seq_fresh,
+        "image_totals_compared": totals_ok,
+        "image_total_errors_compared": totals_err,
+        "colour_pixels_branches": branches,
         "exhaustive": False,
         "exhaustive_note": "the small-scope streams enumerate their finite spaces completely (thorough tier; the quick "
         "tier strides them); the random streams do not",
